@@ -118,7 +118,7 @@ func runC02(r *an.Run) {
 	commitStoreTransactions(r)
 
 	r.Obl("restore-calls-every-step", "PATH",
-		"NewLightningChannel succeeds only after restoreCommitState ok; restoreCommitState succeeds only after reading RemoteCommitChainTip, UnsignedAckedUpdates, RemoteUnsignedLocalUpdates and restoreStateLogs ok; restoreStateLogs succeeds only after restorePendingRemoteUpdates ok and ends in restorePeerLocalUpdates; restorePendingLocalUpdates is called whenever a pending remote commit exists",
+		"NewLightningChannel succeeds only after restoreCommitState ok; restoreCommitState succeeds only after reading RemoteCommitChainTip, UnsignedAckedUpdates, RemoteUnsignedLocalUpdates and restoreStateLogs ok; restoreStateLogs succeeds only after restorePendingRemoteUpdates ok and restorePeerLocalUpdates ok, and restores the peer-unsigned local updates before the pending diff's local updates (log-index order of the local log); restorePendingLocalUpdates is called whenever a pending remote commit exists",
 		"a restore step that is skipped drops updates that were covered by a signature", 12,
 		func(o *an.Obl) {
 			f := p.Func("lnwallet.NewLightningChannel")
@@ -145,6 +145,12 @@ func runC02(r *an.Run) {
 			// commit is non-nil: success returns are unreachable once both
 			// the `pending == nil` edge and the ok edges of the call are cut.
 			pl := h.Calls(an.CalleeIs("lnwallet.LightningChannel.restorePendingLocalUpdates"), false)
+			// the local log is rebuilt in log-index order: the updates the peer
+			// still has to sign for (lower indexes) before the pending diff's
+			if pe := h.Calls(an.CalleeIs("lnwallet.LightningChannel.restorePeerLocalUpdates"), false); len(pe) > 0 && len(pl) > 0 {
+				before(o, h, "restorePeerLocalUpdates", pe, "restorePendingLocalUpdates", pl)
+				mustPass(o, h, "restorePeerLocalUpdates", pe, an.OkErrNil, pl)
+			}
 			if need(o, h, "restorePendingLocalUpdates", pl, 1) {
 				es, _ := h.UnionOk(pl, an.OkErrNil)
 				params := h.Params(false)
@@ -168,4 +174,5 @@ func runC02(r *an.Run) {
 	modifiedMarkerDiscipline(r)
 	persistRestoreKindAgreement(r)
 	statusWriters(r)
+	retrySafeClosures(r, []string{"channeldb", "chanstate"}, `^channeldb\.(ChannelStateDB|ChannelPackager|SwitchPackager)\.|^chanstate\.`, 20, "the channel store's transitions run as kvdb transactions; on the SQL and etcd backends a transaction that hits a serialisation failure is run again, and a closure that continues from the aborted run's value writes a different state than the one it was asked to (C02: the reloaded state is the pre-crash state)")
 }
